@@ -29,6 +29,7 @@ ASSUMPTIONS = [
     "filters are applied to values of a type they accept (length: str/list)",
 ]
 MIN_NONTRIVIAL_FRACTION = 0.3
+RULE += " Added after the seeded rounds: " + 'A case may perform earlier renders on the same Ribosome first (including renders that fail half-way inside an include or a filter).'
 EXHAUSTIVE_NOTE = {"quick": "9 channels x 6 planted constructs = 54 part-B cases, complete", "thorough": "same table, complete"}
 
 VARS = ["a", "b", "c", "user", "topic"]
